@@ -275,6 +275,8 @@ def main():
                 else:
                     r = fn(*pos, **kw)
                 res["out"] = "ok:" + canon(r)
+                if act.get("export") and os.path.exists(act["export"]):
+                    res["graph"] = open(act["export"]).read()
             elif a == "setvar":
                 mod = importlib.import_module(payload["pkg"] + "." + act["mod"])
                 setattr(mod, act["name"], build(act["value"]))
